@@ -70,6 +70,10 @@ type Contract struct {
 	Decreases []*Clause
 	Loops     []*LoopSpec
 	Trusted   string // non-empty: contract is assumed, body not verified
+	// Callbacks: `callback P: ensures E` - postconditions of the function value handed over as parameter P:
+	// assumed where the body calls P, checked where the function is called (the argument must be a function
+	// of the package whose own contract has the same ensures clause)
+	Callbacks map[string][]*Clause
 	Pure      bool
 	Modifies  []string // heap array names; nil = inferred
 	HasMod    bool
@@ -507,6 +511,25 @@ func (cs *Contracts) parseFile(file, src string) {
 		case "fresh_writes":
 			if cur != nil {
 				cur.FreshWrites = append(cur.FreshWrites, strings.Fields(rest)...)
+			}
+		case "callback":
+			// callback P: ensures EXPR
+			if cur == nil {
+				cs.errf(file, ln, "callback outside func block")
+				continue
+			}
+			j := strings.Index(rest, ":")
+			if j < 0 || !strings.HasPrefix(strings.TrimSpace(rest[j+1:]), "ensures ") {
+				cs.errf(file, ln, "callback needs 'P: ensures expr'")
+				continue
+			}
+			pname := strings.TrimSpace(rest[:j])
+			rest = strings.TrimSpace(strings.TrimPrefix(strings.TrimSpace(rest[j+1:]), "ensures "))
+			if c := mkClause("ensures"); c != nil {
+				if cur.Callbacks == nil {
+					cur.Callbacks = map[string][]*Clause{}
+				}
+				cur.Callbacks[pname] = append(cur.Callbacks[pname], c)
 			}
 		case "trusted":
 			if cur != nil {
